@@ -95,6 +95,17 @@ SvcDisconnect(s) ==     \* exactly what s registered disappears
     /\ sExc2' = [x \in Items |-> IF sExc2[x] = s THEN None ELSE sExc2[x]]
     /\ UNCHANGED <<run, dupl, db, adv, port, ver>> /\ Res("SvcDisconnect", TRUE) /\ Log("SvcDisconnect", s, "")
 
+(* the teamserver stops and starts again on its database (not part of Next: generated by its own family).  The built-in
+   listeners come back from TS_Listeners, what services had registered is gone with their connections.  busy: somebody else
+   holds the HTTP ports while it starts - such a listener cannot accept now, but nobody removed it: it stays listed and
+   persisted and runs again after the next start *)
+Restart(busy) ==
+    /\ \A n \in Names : ver[n] = 0
+    /\ run' = [n \in Names |-> IF run[n] \in Builtin THEN run[n] ELSE None]
+    /\ db' = db /\ adv' = {n \in Names : run[n] \in Builtin} /\ dupl' = FALSE
+    /\ port' = IF busy THEN port ELSE {n \in Names : run[n] = "http"}      \* (busy: the ports still answer - whoever holds them does)
+    /\ conn' = {} /\ sAgent' = [x \in Items |-> None] /\ sLst' = [x \in Items |-> None] /\ sExc2' = [x \in Items |-> None]
+    /\ UNCHANGED ver /\ Res("Restart", TRUE) /\ Log("Restart", "", IF busy THEN "busy" ELSE "free")
 (* every connected service goes away at the same moment (a network drop): as if they had left one after the other *)
 SvcLeaveTogether ==
     /\ Cardinality(conn) >= 2
